@@ -497,7 +497,7 @@ def envelope_allowance(c, gs, prio_index, res, n_times):
 
 
 def fsteps(gs, res, n_times):
-    v = gp.goal_value(gs["fn"], res)
+    v = gp.goal_value(gs["fn"], res) + gp.fnum(gs.get("offset", 0))
     return [float(x) for x in v] if gs["path"] else [float(v[gs.get("k", n_times - 1)])]
 
 
